@@ -31,11 +31,15 @@ CONSTANTS CxxTypes,        \* tokens of the explored C++ types
           CxxSize(_),      \* sizeof(T)
           CxxFixedId(_),   \* identifier types.h assigns to a built-in type
           CxxName(_),      \* name a metatype pointer class asks for
+          CxxClassK(_),    \* kind of object a metatype pointer class points to ("tmpl" | "generic" | "basic")
+          CxxClassT(_),    \* ... and for metatype::value<T> * the stored type T ("" otherwise)
           TraitsRegs,      \* design: types whose traits() query obtains the identifier
           GenericPtr,      \* design: token of metatype::generic * (registered by its conversions)
           BasicPtr,        \* design: token of metatype::basic * (the same)
           PayTypes,        \* types whose values are stored in metatypes
           WrapTypes,       \* ... in the value wrapper / a property
+          Vias,            \* explored creators
+          MetaAsk,         \* explored metatype pointer classes an object is asked for
           Slots, Vals, PropBuf
 
 VARIABLES cxx, mt, wrap
@@ -52,8 +56,11 @@ RawCopy(T) == CxxCat(T) \in {"ptr", "span", "fixed"}
 
 \* how the driver writes a value of type T made from token v
 Repr(T, v) == CASE CxxCat(T) = "pod"  -> [i \in 1..CxxSize(T) |-> v]
-                [] CxxCat(T) = "span" -> <<v, v>>
+                [] CxxCat(T) = "span" -> IF v = -1 THEN <<-1, 0>> ELSE <<v, v>>
                 [] OTHER              -> <<v>>
+\* token of the value an element has when it is made without a source: the class's default constructor
+\* (the driver's class: tok = -1), zero bytes / zero for plain data, the null pointer (written -1), the empty span
+DefV(T) == IF CxxCat(T) \in {"class", "ptr", "span"} THEN -1 ELSE 0
 
 NoMeta == [k |-> "none", t |-> "", v |-> 0, refs |-> 0]
 NoWrap == [t |-> "", v |-> 0]
@@ -139,15 +146,18 @@ CxxTraits(T, news) ==
           ELSE [open |-> 0, present |-> 1, size |-> CxxSize(T)])
 
 \* metatype::create<T>(const T &): via = "tmpl";  metatype::create(const value &): "value";
-\* mpt_meta_new of mpt++: "new".  The last two need the identifier of T.
+\* mpt_meta_new of mpt++: "new";  metatype::generic::create(Id(T), 0), no source value: "default" -- the element is
+\* made by the type's own description (a class is default-constructed, once).  All but the first need Id(T).
 Create(h, via, T, v, news) ==
   LET s  == Absorb(S0, news)
       ok == via = "tmpl" \/ HasId(s, T)
   IN
   /\ mt[h].k = "none"
+  /\ via = "default" => ~IsText(T)
   /\ Commit(s) /\ UNCHANGED wrap
-  /\ mt' = IF ok THEN [mt EXCEPT ![h] = [k |-> IF IsText(T) THEN "basic" ELSE IF via = "tmpl" THEN "tmpl" ELSE "generic",
-                                         t |-> T, v |-> v, refs |-> 1]]
+  /\ mt' = IF ok THEN [mt EXCEPT ![h] = [k |-> IF via = "default" THEN "generic" ELSE IF IsText(T) THEN "basic"
+                                                ELSE IF via = "tmpl" THEN "tmpl" ELSE "generic",
+                                         t |-> T, v |-> IF via = "default" THEN DefV(T) ELSE v, refs |-> 1]]
            ELSE mt
   /\ CObs("create", [h |-> h, via |-> via, t |-> T, v |-> v],
           s.legal /\ (via # "tmpl" => Settled(s, T)), news,
@@ -197,6 +207,18 @@ MetaPtr(h, news) ==
   /\ Commit(s) /\ UNCHANGED <<mt, wrap>>
   /\ CObs("metaptr", [h |-> h], s.legal, news, [self |-> 1])
 
+(* convert(Id(M), &ptr) for a metatype pointer class M: the object is handed out under the identifier *)
+(* of its own class only -- an identifier stands for one type (C06: unique)                        *)
+AsMeta(h, M, news) ==
+  LET s    == Absorb(S0, news)
+      m    == mt[h]
+      mine == CxxClassK(M) = m.k /\ (CxxClassT(M) = "" \/ CxxClassT(M) = m.t)
+  IN
+  /\ m.k # "none" /\ IsMeta(M)
+  /\ Commit(s) /\ UNCHANGED <<mt, wrap>>
+  /\ CObs("asmeta", [h |-> h, t |-> M], s.legal /\ Settled(s, M), news,
+          IF HasId(s, M) /\ mine THEN [ret |-> "ok", self |-> 1] ELSE [ret |-> "refused", self |-> 0])
+
 (* addref(): got = 1 when the object handed out one more handle (which objects share is open) *)
 AddRef(h, got, news) ==
   LET s == Absorb(S0, news) IN
@@ -234,10 +256,10 @@ ValGet(T2, news) ==
   LET s == Absorb(S0, news)
       T == wrap.t
   IN
-  /\ T # ""
   /\ Commit(s) /\ UNCHANGED <<mt, wrap>>
   /\ CObs("valget", [t |-> T2], s.legal /\ Settled(s, T2), news,
-          IF ~HasId(s, T2) THEN [open |-> 0, ans_in |-> {AnsRef}]
+          IF T = "" THEN [open |-> 1]                                           \* an empty wrapper: nothing is demanded
+          ELSE IF ~HasId(s, T2) THEN [open |-> 0, ans_in |-> {AnsRef}]
           ELSE IF T2 = T
           THEN (IF RawCopy(T) THEN [open |-> 0, ans_in |-> {AnsOk(T, "", wrap.v)}]
                 ELSE [open |-> 0, ans_in |-> {AnsOk(T, "", wrap.v), AnsRef}])
@@ -276,8 +298,9 @@ SideOf(m, act) ==
 CxxNext ==
   \/ \E T \in CxxTypes, o \in {0, 1} : CxxId(T, o, DesignNews(S0, IF o = 1 THEN <<T>> ELSE <<>>))
   \/ \E T \in CxxTypes : CxxTraits(T, DesignNews(S0, IF T \in TraitsRegs THEN <<T>> ELSE <<>>))
-  \/ \E h \in Slots, via \in {"tmpl", "value", "new"}, T \in PayTypes, v \in Vals :
+  \/ \E h \in Slots, via \in Vias, T \in PayTypes, v \in Vals :
        Create(h, via, T, v, DesignNews(S0, IF via = "tmpl" THEN <<>> ELSE <<T>>))
+  \/ \E h \in Slots, M \in MetaAsk : AsMeta(h, M, DesignNews(S0, <<M>> \o SideOf(mt[h], "get")))
   \/ \E h \in Slots, T2 \in PayTypes : Get(h, T2, DesignNews(S0, <<T2>> \o SideOf(mt[h], "get")))
   \/ \E h \in Slots : GetVal(h, DesignNews(S0, SideOf(mt[h], "getval")))
   \/ \E h \in Slots : TypeOf(h, DesignNews(S0, SideOf(mt[h], "typeof")))
@@ -286,7 +309,7 @@ CxxNext ==
   \/ \E h \in Slots : Release(h, <<>>)
   \/ \E h, h2 \in Slots : Clone(h, h2, <<>>)
   \/ \E T \in WrapTypes, v \in Vals : ValAssign(T, v, DesignNews(S0, <<T>>))
-  \/ \E T2 \in WrapTypes : ValGet(T2, DesignNews(S0, <<T2>>))
+  \/ \E T2 \in WrapTypes : wrap.t # "" /\ ValGet(T2, DesignNews(S0, <<T2>>))
   \/ \E T \in WrapTypes, v \in Vals : PropSet(T, v, DesignNews(S0, <<T>>))
 
 ---------------------------------------------------------------------------
